@@ -1093,6 +1093,28 @@ pub fn run_c15(prop: &str, seed: u64, nstreams: usize, nsyms: usize, trace_path:
         check_prefixes(&data, Opt::ReadFromHeader, prop, &mut rng, 10, rep, &mut none);
         rep.count("window_wrap_stream");
     }
+    // a long run of one highly probable symbol: for most prefixes that end inside it the range decoder's code
+    // register is exactly 0 - the value it also has when a stream is complete - although the declared size is far
+    // from reached.  EVERY prefix, written in one call and in two.
+    {
+        let mut none = None;
+        let props = Props { lc: 3, lp: 0, pb: 2 };
+        let mut prog: Vec<Sym> = (0..40u32).map(|k| Sym::Lit { b: 0x41 + (k * 5 % 50) as u8 }).collect();
+        prog.extend((0..6000).map(|_| Sym::Lit { b: 0 }));
+        prog.extend((0..40u32).map(|k| Sym::Lit { b: 0x61 + (k * 3 % 20) as u8 }));
+        let enc = coding::encode_program(&prog, props);
+        let mut data = lzma_header(props, 4096, Some(enc.out.len() as u64));
+        data.extend_from_slice(&enc.payload);
+        let mut t: Vec<(usize, Vec<usize>)> = vec![];
+        for plen in 18..=data.len() {
+            t.push((plen, vec![]));
+            if plen % 3 == 0 {
+                t.push((plen, vec![plen - 1 - plen % 7]));
+            }
+        }
+        check_prefixes_at(&data, Opt::ReadFromHeader, prop, &mut rng, 0, &t, rep, &mut none);
+        rep.count("zero_run_stream");
+    }
     // worst-case symbols: prefixes ending inside / just after the most expensive symbols we can build, with a cut
     // that leaves 1..cost-1 of their bytes parked in the partial input buffer
     {
@@ -1250,6 +1272,76 @@ pub fn run_c16(prop: &str, seed: u64, nstreams: usize, nsyms: usize, trace_path:
         let c = StreamCase { data_hex: hex(&data), opt, memlimit: None, allow_incomplete: i % 2 == 0, cuts, origin: format!("size-inside-copy/{}of{}", sz - before, n), mode: "c16".into(), extra_writes: vec![] };
         let mut none = None;
         check_case(&c, prop, rep, &mut none);
+    }
+    // declared size reached at a symbol boundary (in particular: size 0, reached before the first symbol) with
+    // more symbols and an end marker after it: later writes consume nothing and the output stays as it is
+    for i in 0..nstreams.max(6) {
+        let props = [Props { lc: 3, lp: 0, pb: 2 }, Props { lc: 0, lp: 2, pb: 0 }][i % 2];
+        let mut prog = random_walk(&mut rng, &WalkCfg { nsyms: 6 + i % 20, props, max_dist: 64, lit_alphabet: 200 });
+        if prog.is_empty() {
+            continue;
+        }
+        prog.push(Sym::Eos);
+        let enc = coding::encode_program(&prog, props);
+        // cumulative output after k symbols
+        let mut cs = coding::CS::default();
+        let mut cum = vec![0u64];
+        for sy in &prog[..prog.len() - 1] {
+            cs.apply(sy);
+            cum.push(cs.out.len() as u64);
+        }
+        let k = if i % 2 == 0 { 0 } else { i % (cum.len() - 1) };
+        let sz = cum[k];
+        let (opt, field) = match i % 3 {
+            0 => (Opt::ReadFromHeader, Some(sz)),
+            1 => (Opt::ReadHeaderButUseProvided { n: Some(sz) }, Some(u64::MAX)),
+            _ => (Opt::UseProvided { n: Some(sz) }, None),
+        };
+        let mut data = lzma_header(props, 4096, field);
+        data.extend_from_slice(&enc.payload);
+        let hl = opt.header_len();
+        let gg = GenStream { data: data.clone(), opt, origin: String::new(), bounds: vec![] };
+        for cuts in [gen_cuts(&mut rng, &gg, i), vec![hl + 5], vec![hl, hl + 5, hl + 6], (1..data.len()).collect::<Vec<usize>>()] {
+            let cuts: Vec<usize> = cuts.into_iter().filter(|c| *c <= data.len()).collect();
+            let c = StreamCase { data_hex: hex(&data), opt, memlimit: None, allow_incomplete: i % 4 == 3, cuts, origin: format!("size-{}-then-more-symbols", sz), mode: "c16".into(), extra_writes: vec![] };
+            let mut none = None;
+            check_case(&c, prop, rep, &mut none);
+        }
+    }
+    // output of several window lengths with a 4 KiB dictionary ("no sequence of calls panics" includes the calls
+    // during which the circular window wraps): literal-only, and literals mixed with short copies
+    for which in 0..2 {
+        let props = Props { lc: 3, lp: 0, pb: 2 };
+        let mut prog: Vec<Sym> = vec![];
+        let mut total = 0usize;
+        let mut k = 0u32;
+        while total < 8300 + which * 4500 {
+            if which == 1 && k % 9 == 8 {
+                prog.push(Sym::Match { d: 3, n: 2 + (k % 5) });
+                total += 2 + (k % 5) as usize;
+            } else {
+                prog.push(Sym::Lit { b: 0x61 + ((k * 7 + k / 13) % 90) as u8 });
+                total += 1;
+            }
+            k += 1;
+        }
+        let sized = which == 0;
+        if !sized {
+            prog.push(Sym::Eos);
+        }
+        let enc = coding::encode_program(&prog, props);
+        let mut data = lzma_header(props, 4096, if sized { Some(enc.out.len() as u64) } else { Some(u64::MAX) });
+        data.extend_from_slice(&enc.payload);
+        let gg = GenStream { data: data.clone(), opt: Opt::ReadFromHeader, origin: String::new(), bounds: vec![] };
+        for j in 0..3 {
+            let cuts = if j == 0 { vec![] } else { gen_cuts(&mut rng, &gg, j + which) };
+            if cuts.len() > 400 {
+                continue;
+            }
+            let c = StreamCase { data_hex: hex(&data), opt: Opt::ReadFromHeader, memlimit: None, allow_incomplete: false, cuts, origin: "window-wrap-stream".into(), mode: "c16".into(), extra_writes: vec![] };
+            let mut none = None;
+            check_case(&c, prop, rep, &mut none);
+        }
     }
     if let (Some(p), Some(t)) = (trace_path, trace) {
         std::fs::write(p, t.join("\n") + "\n").expect("write trace");
